@@ -1,7 +1,7 @@
 """C07 configuration for ./check (keys: see checks/propcfg.py)."""
 CFG = {
-    "modules": ["VaxisModel.Props.C07"],
-    "extractors": ["C07", "C04", "C18"],
+    "modules": ["VaxisModel.Props.C07", "VaxisModel.Props.C07Caps"],
+    "extractors": ["C07", "C04", "C18", "C03", "C07caps"],
     "drivers": ["C07", "C07caps", "C01", "C04"],
     "stateful_drivers": ["C01", "C04"],
     "trivial_prefix": ("id:", "-", "bytes="),
